@@ -22,6 +22,7 @@ WEAK = {  # switch -> properties one of which TLC must refute
     "PendingSkipsExpiry": ("BlockCheck",),
     "LateAddUnchecked": ("OnceOnly", "AdmitOnlyAdmissible"),
     "BufferUsesCurrentValSet": ("AdmitOnlyAdmissible", "NoPanic", "BufferFlushed"),
+    "BufferDedupIgnoresVoteType": ("BufferFlushed",),
     "ExpiryUsesStartupParams": ("BlockCheck", "ExpiryBoth", "SurvivesRestart", "PendingKept"),
 }
 HARNESS = ["zz_verif_c11_test.go", "zz_verif_c11_gen_test.go"]
@@ -56,7 +57,7 @@ def row_to_op(r):
     if e == "Check":
         return {"op": "Check", "ids": r["ids"]}
     if e == "Report":
-        return {"op": "Report", "pair": r["pair"]}
+        return {"op": "Report", "pair": r["pair"], "swap": bool(r.get("swap"))}
     if e == "Update":
         return {"op": "Update", "ids": r["ids"], "crash": r["crash"], "to": r["to"]}
     if e == "Pending":
@@ -98,6 +99,22 @@ def case_runs(c):
             ops += [{"op": "Report", "pair": q}, {"op": "Update", "ids": []}, {"op": "Pending", "mb": -1},
                     {"op": "Restart"}, {"op": "Update", "ids": []}]
             runs.append({"src": "cases", "ctx": "cases", "ops": ops})
+    # one validator double-signing prevote AND precommit in one round: two pairs, each reported
+    # several times and in both orders; every distinct pair must become one pending item
+    for v in sorted(q for q in c["pairs"] if q.startswith("v")):
+        q = "q" + v[1:]
+        if q not in c["pairs"]:
+            continue
+        h = c["pairs"][q]["h"]
+        for at in (h - 1, h):
+            if at < c["H0"] or at + 1 > c["N"]:
+                continue
+            for first, second in ((q, v), (v, q)):
+                ops = [{"op": "Update", "ids": []} for _ in range(at - c["H0"])]
+                ops += [{"op": "Report", "pair": first}, {"op": "Report", "pair": second, "swap": True},
+                        {"op": "Report", "pair": first, "swap": True}, {"op": "Report", "pair": second},
+                        {"op": "Update", "ids": []}, {"op": "Pending", "mb": -1}, {"op": "Restart"}, {"op": "Update", "ids": []}]
+                runs.append({"src": "cases", "ctx": "cases", "ops": ops})
     return runs
 
 
